@@ -256,3 +256,143 @@ func verifHarness_C06_sequences() {
 	vAssert(g.stOff == g.pom.offset && g.stMd == g.pom.metadata, "stored-equals-pending-position")
 	vReach()
 }
+
+// ---------- P-sys: the real offset manager (mainLoop, Commit, Close with its final flush)
+// against a simulated coordinator that may move and may fail one commit ----------
+
+type vCoordClient struct {
+	vFakeClient
+	cached, trueCoord int
+	refreshes         int
+}
+
+func (c *vCoordClient) Coordinator(g string) (*Broker, error) { return c.cl.brokers[c.cached], nil }
+func (c *vCoordClient) RefreshCoordinator(g string) error {
+	c.refreshes++
+	c.cached = c.trueCoord
+	return nil
+}
+
+type vMark struct {
+	off int64
+	md  string
+}
+
+// verifHarness_C06_sysClose: marks on two partitions interleaved with an optional manual Commit,
+// then Close. The group coordinator may move once (the old one then answers "not coordinator" /
+// "coordinator not available" for every block) and one commit may meet a fault; Retry.Max
+// leaves enough final attempts for an accepting coordinator to be reached. When Close returns
+// the coordinator's store holds the latest mark of every partition, everything it was ever
+// asked to store was a marked pair, and per partition the stored offset never went backwards.
+func verifHarness_C06_sysClose() {
+	vConfig("delay", 1)
+	vConfig("ticks", 2)
+	conf := NewConfig()
+	conf.Consumer.Offsets.AutoCommit.Enable = true
+	conf.Consumer.Offsets.Retry.Max = 3
+	conf.Metadata.Retry.Max = 0
+	conf.Consumer.Return.Errors = true
+	cl := vNewCluster(conf, 2, 2, 0)
+	client := &vCoordClient{vFakeClient: vFakeClient{conf: conf, cl: cl}}
+	client.trueCoord = vChoose("coordinator", 2)
+	client.cached = client.trueCoord
+	moves, faults := 1, 1
+	movedCode := []KError{ErrNotCoordinatorForConsumer, ErrConsumerCoordinatorNotAvailable}[vChoose("movedCode", 2)]
+	store := map[int32]vMark{0: {5, ""}, 1: {5, ""}}
+	marks := map[int32][]vMark{0: {{5, ""}}, 1: {{5, ""}}}
+	faultKinds := ""
+	vOverride("(*Broker).FetchOffset", func(b *Broker, req *OffsetFetchRequest) (*OffsetFetchResponse, error) {
+		return &OffsetFetchResponse{Blocks: map[string]map[int32]*OffsetFetchResponseBlock{"t": {0: {Offset: 5}, 1: {Offset: 5}}}}, nil
+	})
+	vOverride("(*Broker).CommitOffset", func(b *Broker, req *OffsetCommitRequest) (*OffsetCommitResponse, error) {
+		if moves > 0 && vChoose("coordinatorMoves", 2) == 1 {
+			moves--
+			client.trueCoord = 1 - client.trueCoord
+			faultKinds += "M"
+		}
+		vYield()
+		resp := &OffsetCommitResponse{Errors: map[string]map[int32]KError{"t": {}}}
+		if int(b.id) != client.trueCoord {
+			for p := range req.blocks["t"] {
+				resp.Errors["t"][p] = movedCode
+			}
+			return resp, nil
+		}
+		kind := 0
+		if faults > 0 {
+			kind = vChoose("commitFault", 6)
+			if kind != 0 {
+				faults--
+				faultKinds += vItoa(int64(kind))
+			}
+		}
+		if kind == 5 {
+			return nil, errVConn
+		}
+		first := true
+		for p := int32(0); p < 2; p++ {
+			blk, ok := req.blocks["t"][p]
+			if !ok {
+				continue
+			}
+			hit := first && kind != 0
+			first = false
+			switch {
+			case hit && kind == 1:
+				resp.Errors["t"][p] = ErrOffsetsLoadInProgress
+			case hit && kind == 2:
+				resp.Errors["t"][p] = ErrUnknownTopicOrPartition
+			case hit && kind == 3:
+				resp.Errors["t"][p] = ErrRequestTimedOut
+			case hit && kind == 4:
+				// the block is missing from the response
+			default:
+				known := false
+				for _, m := range marks[p] {
+					if m.off == blk.offset && m.md == blk.metadata {
+						known = true
+					}
+				}
+				vAssert(known, "committed-pair-was-marked")
+				vAssert(blk.offset >= store[p].off, "stored-offset-never-goes-back")
+				store[p] = vMark{blk.offset, blk.metadata}
+				resp.Errors["t"][p] = ErrNoError
+			}
+		}
+		return resp, nil
+	})
+	vOverride("(*Broker).Close", func(b *Broker) error { return nil })
+	om, err := newOffsetManagerFromClient("g", "", GroupGenerationUndefined, client)
+	vAssume(err == nil)
+	var poms [2]*partitionOffsetManager
+	for p := int32(0); p < 2; p++ {
+		pi, err := om.ManagePartition("t", p)
+		vAssume(err == nil)
+		poms[p] = pi.(*partitionOffsetManager)
+		pp := poms[p]
+		go func() {
+			for range pp.Errors() {
+			}
+		}()
+	}
+	mark := func(p int32, off int64, md string) {
+		marks[p] = append(marks[p], vMark{off, md})
+		poms[p].MarkOffset(off, md)
+	}
+	mark(0, 10, "a")
+	if vChoose("manualCommit", 2) == 1 {
+		om.Commit()
+	}
+	mark(1, 20, "b")
+	if vChoose("secondMark", 2) == 1 {
+		mark(0, 12, "c")
+	}
+	vAssert(om.Close() == nil, "close-returns")
+	vClass(vSprintf("faults=%s", faultKinds))
+	for p := int32(0); p < 2; p++ {
+		last := marks[p][len(marks[p])-1]
+		vAssert(store[p] == last, "stored-equals-latest-mark-when-close-returns")
+	}
+	vCover("coordinator-moved", len(faultKinds) > 0 && faultKinds[0] == 'M')
+	vReach()
+}
